@@ -325,7 +325,7 @@ FAULTS = ['wrong-output', 'exception', 'called-exception', 'helper-long', 'helpe
           'badrepr-stdout', 'bad-directive', 'bad-directive-inline']
 
 
-def build_c09(fault, pos, pre_want, multi, on_error='return', verbose=0):
+def build_c09(fault, pos, pre_want, multi, on_error='return', verbose=0, helper_extra=None, own_want=0):
     """pos in first/middle/last; pre_want: a correct want before the failing part; multi: a multi-line
     statement before it. expectation: failed, report renders and names type + failing line"""
     groups = []
@@ -336,7 +336,9 @@ def build_c09(fault, pos, pre_want, multi, on_error='return', verbose=0):
     if fault in ('helper-long', 'helper-short'):
         g = gd.Group('assign', k)
         body = ['def helper%d(a):' % k]
-        if fault == 'helper-long':
+        if helper_extra is not None:
+            body += ['    a%d = a + %d' % (i, i) for i in range(helper_extra)]
+        elif fault == 'helper-long':
             body += ['    a1 = a + 1', '    a2 = a1 + 1', '    a3 = a2 + 1', '    a4 = a3 + 1']
         body += ['    raise IndexError("h%d" % a)']
         g.lines = body
@@ -377,6 +379,9 @@ def build_c09(fault, pos, pre_want, multi, on_error='return', verbose=0):
         g.raises = ('IndexError', 'h%d' % k)
         kind = 'exception'
         exc_type = 'IndexError'
+        if own_want:
+            # a want that is not a traceback block never hides the exception (C03); it only makes the part longer
+            g.want = '\n'.join('expected line %d' % i for i in range(own_want))
     elif fault == 'compile':
         g = gd.Group('compileerr', k)
         kind = 'compile'
@@ -416,5 +421,6 @@ def build_c09(fault, pos, pre_want, multi, on_error='return', verbose=0):
     expect = {'pfs': '010', 'kind': kind, 'T': T, 'exc_type': exc_type, 'render': True,
               'fail_first_line': g.lines[0] if failing_line is None else None}
     return {'text': gd.render(groups), 'run': {'on_error': on_error, 'verbose': verbose}, 'expect': expect,
-            'desc': {'fault': fault, 'pos': pos, 'pre_want': pre_want, 'multi': multi, 'verbose': verbose},
+            'desc': {'fault': fault, 'pos': pos, 'pre_want': pre_want, 'multi': multi, 'verbose': verbose,
+                     'helper_extra': helper_extra, 'own_want': own_want},
             'groups': groups}
